@@ -37,8 +37,30 @@ theorem C14_no_leak_reachable (cs : List (Cmd S)) :
     (∀ i, (run cs ({} : State S)).cnt.getD i 0 = 0) ∧ (∀ i, (run cs ({} : State S)).delta.getD i none = none) :=
   (reachable_good cs).heap.clean
 
+
+/-- **`update` is one gradient-descent step on exactly the model's parameters**: the command is the
+    optimizer update (C13: per parameter `old − lr·gradient`, gradients taken, frozen parameters
+    untouched) applied, with the model's learning rate, to the parameters of the model's layers in
+    order, which are then put back into the layers. -/
+theorem C14_update_unfold (σ : State S) (m : String) (mr : ModelRec S) (h : lookup σ.models m = some mr) :
+    exec σ (.update m) = (gdUpdate σ mr.lr (modelParams σ mr.layers)).bind (fun r =>
+      .ok (putParams r.1 mr.layers r.2, .params (r.2.map (fun h => (r.1.tensorOf h, r.1.grad.getD h.node none))))) := by
+  simp only [exec, h, bind, Except.bind, pure, Except.pure]
+
+/-- **`backward` of an iteration differentiates the cost of the current output against the target,
+    from the default (all-ones) seed**: the command builds the cost node on the output recorded by the
+    last forward pass and runs the pass from it with no explicit seed (C17: ones). -/
+theorem C14_bwd_unfold (σ : State S) (m t : String) (mr : ModelRec S) (out target : Handle)
+    (h : lookup σ.models m = some mr) (ho : mr.output = some out) (ht : σ.get t = .ok target) :
+    exec σ (.bwd m t) = ((match mr.cost with | .mse => hMse σ out target | .xent => hXent σ out target).bind (fun r =>
+      (r.1.backward r.2 none).bind (fun σ2 => .ok (σ2, .scalar (sumAll (σ2.tensorOf r.2)))))) := by
+  simp only [exec, h, ho, ht, bind, Except.bind, pure, Except.pure]
+  cases mr.cost <;> simp only [] <;> (first | (cases hMse σ out target <;> rfl) | (cases hXent σ out target <;> rfl))
+
 end Corgi
 
 #print axioms Corgi.C14_no_leak
 #print axioms Corgi.C14_fresh_parameter
 #print axioms Corgi.C14_no_leak_reachable
+#print axioms Corgi.C14_update_unfold
+#print axioms Corgi.C14_bwd_unfold
